@@ -591,6 +591,28 @@ def pyrange_list(a, b, st):
     return out
 
 
+def oracle_pfu(ctx: Ctx, line, ws):
+    """periods_from_until(a, b, step) (and its aliases periods_from_to / daters_from_to) lists a, a+step, ... while <= b"""
+    a, b, st = parse_endpoint(ws[1]), parse_endpoint(ws[2]), int(ws[3])
+    if type(a) is not type(b) or st <= 0:
+        return
+    ctx.evaluations += 1
+    want = pyrange_list(a.serial, b.serial, st)
+    for name, fn in (("periods_from_until", D.periods_from_until), ("periods_from_to", D.periods_from_to), ("daters_from_to", D.daters_from_to)):
+        try:
+            got = fn(a, b, st)
+            span_way = [p.serial for p in ir.Span(a, b, st)]
+            if [p.serial for p in got] != want or any(type(p) is not type(a) for p in got) or span_way != want:
+                ctx.fail("periods-from-until", {"line": line}, f"{name} -> {[p.serial for p in got][:8]}, Span -> {span_way[:8]}, expected {want[:8]}")
+                return
+            if st == 1 and [p.serial for p in fn(a, b)] != want:
+                ctx.fail("periods-from-until", {"line": line}, f"{name} with the default step differs from step=1")
+                return
+        except Exception as e:
+            ctx.fail("periods-from-until", {"line": line}, f"{name}: {e!r}")
+            return
+
+
 def oracle_encompassing(ctx: Ctx, line, ws):
     """the encompassing span starts at or before and ends at or after every period of every argument (sequences in any
     order); only arguments of one frequency are judged (the others are the rejection cases of the correspondence stream)"""
@@ -632,6 +654,9 @@ def oracle_spans(ctx: Ctx, lines):
         ws = line.split()
         if ws[0] == "enc":
             oracle_encompassing(ctx, line, ws)
+            continue
+        if ws[0] == "pfu":
+            oracle_pfu(ctx, line, ws)
             continue
         if ws[0] not in ("span", "span>>", "span<<"):
             continue
@@ -694,7 +719,12 @@ def oracle_spans(ctx: Ctx, lines):
                 c = s.copy()
                 c.shift(2); c.reverse()
                 plus = s + 1
-                ok = r is not s and c is not s and plus is not s
+                # ... also for the neutral offset: `span + 0`, `0 + span`, `span - 0` are new spans, not the span itself
+                zeros = [s + 0, 0 + s, s - 0]
+                ok = r is not s and c is not s and plus is not s and all(z is not s for z in zeros)
+                ok = ok and all((show_endpoint(z.start), show_endpoint(z.end), z.step) == snap for z in zeros)
+                for z in zeros:
+                    z.shift(3); z.reverse()
                 ok = ok and (show_endpoint(s.start), show_endpoint(s.end), s.step) == snap
                 ok = ok and (show_endpoint(r.start), show_endpoint(r.end), r.step) == (snap[1], snap[0], -snap[2])
                 if not ok:
@@ -797,7 +827,7 @@ def search(ctx: Ctx, seeds):
     ctx.tier = "quick"   # bounded: quick enumeration without thinning (~1 min)
     oracle_calendar(ctx, budget_scale=10)
     oracle_arith(ctx, gen_cmp_lines(ctx))
-    oracle_spans(ctx, gen_span_lines(ctx) + [c for c in seeds if isinstance(c, str) and (c.startswith("span") or c.startswith("enc"))])
+    oracle_spans(ctx, gen_span_lines(ctx) + [c for c in seeds if isinstance(c, str) and (c.startswith("span") or c.startswith("enc") or c.startswith("pfu"))])
 
 
 def replay(ctx: Ctx, payload):
